@@ -169,6 +169,10 @@ class _Bin1d:
             yield 'hint:below:fl<0', z3.Implies(v < a0r - below, fl < 0)
             yield 'hint:closed-top:fl>=n', z3.Implies(z3.And(k == n, v >= ek), fl >= n)
             yield 'hint:open-top:fl>=n-1', z3.Implies(z3.And(k == n - 1, v >= ek), fl >= n - 1)
+            nr = z3.ToReal(n)
+            taun = tolr * (zabs(v) + (nr + 1) * zabs(a0r)) if not cls.with_tol else pt + tolr * (nr + 1) * zabs(a0r)
+            yield 'hint:closed-below-top:N<nD', z3.Implies(v < a0r + nr * hr - taun, N < nr * D)
+            yield 'hint:closed-below-top:fl<n', z3.Implies(v < a0r + nr * hr - taun, fl < n)
 
         yield 'range', z3.Implies(inr, z3.And(ri >= -1, ri <= n - 1))
         # a value at or above an edge never goes below it
@@ -180,7 +184,8 @@ class _Bin1d:
         yield 'closed-inside-is-binned', z3.Implies(z3.And(inr, z3.Not(opn), k >= 0, k <= n - 1, v >= ek, v < ek1 - tau),
                                                     ri == k)
         # upper-exclusive up to the granted tolerance
-        yield 'upper-exclusive', z3.Implies(z3.And(inr, k >= 0, k <= n - 1, v < ek1 - tau, v >= a0r), z3.And(ri <= k, ri >= 0))
+        yield 'upper-exclusive', z3.Implies(z3.And(inr, k >= 0, k <= n - 1, v < ek1 - tau), ri <= k)
+        yield 'at-or-above-first-edge-is-not-below-range', z3.Implies(z3.And(inr, v >= a0r, z3.Or(opn, v < a0r + z3.ToReal(n) * hr - (tolr * (zabs(v) + (z3.ToReal(n) + 1) * zabs(a0r)) if not cls.with_tol else pt + tolr * (z3.ToReal(n) + 1) * zabs(a0r)))), ri >= 0)
         yield 'below-first-edge', z3.Implies(z3.And(inr, v < a0r - below), ri == -1)
         yield 'first-edge', z3.Implies(z3.And(inr, v == a0r), ri == 0)
         yield 'open-top', z3.Implies(z3.And(inr, opn, k == n - 1, v >= ek), ri == n - 1)
